@@ -22,7 +22,8 @@ cd "$S"
 git init -q . 2>/dev/null; git add -A >/dev/null 2>&1; git -c user.email=a@b -c user.name=x commit -qm base >/dev/null 2>&1
 if [ -f "$D/demo.diff" ]; then
   git apply "$D/demo.diff" || { echo "$N: DEMO PATCH DOES NOT APPLY"; rm -rf "$S"; exit 1; }
-  run_demo() { timeout 1800 cargo test --offline -p $CRATE --lib seeded_demo 2>&1 | grep -E "^test result" | head -1; }
+  if [ $RAFT = 1 ]; then TGT="--bins"; else TGT="--lib"; fi
+  run_demo() { timeout 2400 cargo test --offline -p $CRATE $TGT seeded_demo 2>&1 | grep -E "^test result" | head -1; }
 else
   DEMO=seeded_demo_$(echo $N | tr 'A-Z-' 'a-z_')
   cp "$D/demo.rs" "$S/agdb/tests/$DEMO.rs"
